@@ -84,12 +84,37 @@ def _load_prop(pid):
 
 
 def _work(pid, seed, tier, indices, mode):
-    """Worker: execute a chunk of runs, aggregate locally."""
+    """Worker: execute a chunk of runs.  The pool worker itself is a TEMPLATE (library imported, no operation executed);
+    batched properties run every chunk in a forked child of it, so the process history of a run is exactly the earlier
+    runs of its chunk - which makes a violation that depends on that history replayable (see batch replay below)."""
     prop = _load_prop(pid)
     from . import lib as _lib
     _lib.load(with_numpy=getattr(prop, "WITH_NUMPY", False))   # template state: library imported, no operation executed yet
-    if not getattr(prop, "ISOLATE", False):
-        faulthandler.dump_traceback_later(int(os.environ.get("VERIF_CHUNK_TIMEOUT", "600")), exit=True)
+    if getattr(prop, "ISOLATE", False) or os.environ.get("VERIF_INPROCESS_CHUNKS"):
+        return _chunk(pid, seed, tier, indices)
+    try:
+        return run_isolated(_chunk, (pid, seed, tier, indices), timeout=int(os.environ.get("VERIF_CHUNK_TIMEOUT", "600")))
+    except HarnessError as e:
+        return {"n": 0, "sigs": set(), "probes": {}, "faults": {}, "steps": 0, "samples": [], "viols": [], "stats": {},
+                "errors": [f"chunk {indices[0]}..{indices[-1]}: {e}"]}
+
+
+def batch_replay(pid, batch):
+    """Replay runs first..last of one chunk in ONE process (this one) and return the violation of the last run."""
+    prop = _load_prop(pid)
+    from . import lib as _lib
+    _lib.load(with_numpy=getattr(prop, "WITH_NUMPY", False))
+    v = None
+    for i in range(batch["first"], batch["last"] + 1):
+        res = prop.run_one(batch["seed"], i, batch["tier"])
+        v = res.get("viol")
+        if v and i != batch["last"]:
+            return dict(v, msg=f"[already at run {i} of the batch] " + v["msg"])
+    return v
+
+
+def _chunk(pid, seed, tier, indices):
+    prop = _load_prop(pid)
     agg = {"n": 0, "sigs": set(), "probes": {}, "faults": {}, "steps": 0, "samples": [], "viols": [], "stats": {},
            "errors": []}
     isolate = getattr(prop, "ISOLATE", False)
@@ -119,8 +144,8 @@ def _work(pid, seed, tier, indices, mode):
             agg["samples"].append(res["sample"])
         for v in res.get("viols", [res["viol"]] if res.get("viol") else []):
             if len(agg["viols"]) < 5:
+                v.setdefault("chunk_first", indices[0])
                 agg["viols"].append(v)
-    faulthandler.cancel_dump_traceback_later()
     return agg
 
 
@@ -159,7 +184,10 @@ def fresh_replay(pid, path, timeout=900):
 def replay_main(pid, path):
     prop = _load_prop(pid)
     payload = json.load(open(path))
-    v = prop.replay(payload["replay"])
+    if isinstance(payload["replay"], dict) and payload["replay"].get("batch"):
+        v = batch_replay(pid, payload["replay"]["batch"])
+    else:
+        v = prop.replay(payload["replay"])
     if v:
         print("REPLAY-RESULT " + json.dumps({"kind": v["kind"], "msg": v["msg"][:500]}))
         print(f"violation reproduced: {v['kind']}: {v['msg']}")
@@ -196,7 +224,10 @@ def main_check(pid, tier, replay=None):
     prop = _load_prop(pid)
     if replay:
         payload = json.load(open(replay))
-        v = prop.replay(payload["replay"])
+        if isinstance(payload["replay"], dict) and payload["replay"].get("batch"):
+            v = batch_replay(pid, payload["replay"]["batch"])
+        else:
+            v = prop.replay(payload["replay"])
         if v:
             log(f"violation reproduced: {v['kind']}: {v['msg']}")
             log(f"VIOLATION property={pid} replay={replay}")
@@ -268,6 +299,20 @@ def main_check(pid, tier, replay=None):
                            "run_index": v.get("index"), "lib_digest": lib_digest(), "replay": payload}, f, indent=1,
                           default=repr)
             kind, out = fresh_replay(pid, path)
+            if kind is None and not getattr(prop, "ISOLATE", False) and v.get("index") is not None and v.get("chunk_first") is not None:
+                # not reproducible on its own: does it depend on what the process executed before (the earlier runs of its
+                # chunk)?  Then the counter-example is that HISTORY: replay the runs chunk_first..index in one fresh process.
+                os.remove(path)
+                bpayload = {"batch": {"seed": seed, "tier": tier, "first": v["chunk_first"], "last": v["index"]}}
+                name = f"{pid}-{_digest(bpayload)}.json"
+                path = os.path.join(rdir, name)
+                v = dict(v, msg=f"[depends on the process history: reproduces only after runs {v['chunk_first']}..{v['index'] - 1} of the "
+                                f"same seed were executed in the same process] " + v["msg"])
+                with open(path, "w") as f:
+                    json.dump({"property": pid, "violation": v["kind"], "message": v["msg"], "seed": seed, "run_index": v.get("index"),
+                               "lib_digest": lib_digest(), "replay": bpayload}, f, indent=1, default=repr)
+                kind, out = fresh_replay(pid, path)
+                payload = bpayload
             if kind is None:
                 tot["errors"].append(f"violation {v['kind']} (run {v.get('index')}) did not reproduce from {path} "
                                      f"in a fresh interpreter: {v['msg'][:300]}")
